@@ -67,6 +67,9 @@ impl Scenario for Full {
         cov.declare("opkind_bigram_x_bits_pending_x_prefix_ctx_x_modifier_held", 8 * 8 * 11 * 6 * 2);
         cov.declare("bits_pending_x_prefix_ctx_at_event_stage_call", 11 * 6);
         cov.declare("bits_pending_x_modifier_state_at_clear", 11 * 512);
+        // distinct interleavings: hash of the run's sequence of operation kinds (which task ran
+        // at each step), folded into 2^24 cells - the count is a lower bound on distinct schedules
+        cov.declare("distinct_schedules_hashed_into_2p24", 1 << 24);
         for k in ["flip1", "flip2", "flip3plus", "drop_edge", "extra_edge", "truncate", "noise_frame", "stray_edge", "garbage_byte", "phantom_event", "dup_frame"] {
             cov.fault_declare(k);
         }
@@ -241,6 +244,7 @@ impl Scenario for Full {
         let mut last_t = 0;
         let mut prev_kind: usize = 7;
         let mut last_path: Option<u8> = None;
+        let mut sched = LogHash::new();
 
         macro_rules! fail {
             ($l:lifetime, $i:expr, $oracle:expr, $($arg:tt)*) => {{
@@ -272,6 +276,7 @@ impl Scenario for Full {
             env.cov.hit("opkind_bigram_x_bits_pending_x_prefix_ctx_x_modifier_held", (((prev_kind * 8 + k8) * 11 + pend) * 6 + ctx) * 2 + mod_held as usize);
             prev_kind = k8;
             h.mix(k8 as u64);
+            sched.mix(k8 as u64 + 1);
             // results of this op from Keyboard and from the mirror, as comparable strings of hashes
             let mut feed_byte_models = |b: u8, m2: &mut RefSet2, m1: &mut RefSet1| {
                 if cfg.set == 2 {
@@ -490,6 +495,7 @@ impl Scenario for Full {
                 env.log.push(format!("op {} {} (bits pending {}, prefix ctx {}, mods [{}], queue {})", i, op_show(&top.op), fr.pending(), ctx, mods_show(kb.get_modifiers()), queue.len()));
             }
         }
+        env.cov.hit("distinct_schedules_hashed_into_2p24", (sched.0 & 0xFF_FFFF) as usize);
         // (b) schedule independence: same inputs, same consumer actions, another interleaving
         if violation.is_none() && !consumer_log.is_empty() {
             env.cov.probe("obs_schedule_independence_checked");
